@@ -95,6 +95,7 @@ from .edge.base_edge import BaseEdge
 from .edge.edge_landmark import EdgeLandmark
 from .edge.edge_odometry import EdgeOdometry
 from .g2o_parameters import G2OParameterSE2Offset, G2OParameterSE3Offset
+from .pose.se3 import PoseSE3
 from .vertex import Vertex
 
 
@@ -529,18 +530,27 @@ class Graph(object):
             The path where the graph will be saved
 
         """
+        # The offsets of SE(3) landmark edges are written as parameters; make sure that none is missing or ambiguous
+        g2o_params = dict(self._g2o_params) if self._g2o_params else {}
+        for e in self._edges:
+            if isinstance(e, EdgeLandmark) and isinstance(e.offset, PoseSE3) and e.offset_id is not None:
+                key = ("PARAMS_SE3OFFSET", e.offset_id)
+                if key not in g2o_params:
+                    g2o_params[key] = G2OParameterSE3Offset(key, e.offset)
+                elif not np.array_equal(g2o_params[key].value, e.offset):
+                    raise ValueError("Different offsets for the parameter {}".format(key))
+
+        # Generate everything before touching the file, so that nothing is written if something cannot be exported
+        lines = [g2o_param.to_g2o() for g2o_param in g2o_params.values()]
+        lines.extend(v.to_g2o() for v in self._vertices)
+        for e in self._edges:
+            edge_str_or_none = e.to_g2o()
+            if edge_str_or_none:
+                lines.append(edge_str_or_none)
+
         with open(outfile, "w") as f:
-            if self._g2o_params:
-                for g2o_param in self._g2o_params.values():
-                    f.write(g2o_param.to_g2o())
-
-            for v in self._vertices:
-                f.write(v.to_g2o())
-
-            for e in self._edges:
-                edge_str_or_none = e.to_g2o()
-                if edge_str_or_none:
-                    f.write(edge_str_or_none)
+            for line in lines:
+                f.write(line)
 
     @classmethod
     def from_g2o(cls, infile, custom_edge_types=None):
